@@ -12,7 +12,16 @@ FRAG_MTU = 150
 TX = [(r'dtn://far/.*', None), (r'dtn://frag/.*', FRAG_MTU), (r'dtn://tiny/.*', 40), (r'dtn://rpt/.*', None),
       (r'dtn://node/.*', None)]
 OUTCOMES = {'deliver': '//node/app', 'forward': '//far/x', 'fwdfrag': '//frag/x', 'delete': '//del/x',
-            'noroute': '//nowhere/x', 'fwdnotx': '//lost/x', 'fwdunsend': '//tiny/x'}
+            'noroute': '//nowhere/x', 'fwdnotx': '//lost/x', 'fwdunsend': '//tiny/x', 'secfail': '//node/sec'}
+SEC_REASONS = (12, 13, 14, 15, 16)
+
+
+def bcb_unknown_context():
+    ''' Block Confidentiality Block (type 12) over the payload, security context 99 which no node implements:
+    RFC 9172 3.6 ASB sequence  targets [1], context id 99, flags 0, source, results [[]] '''
+    btsd = A.enc([1]) + A.enc(99) + A.enc(0) + A.enc(A.eid_item(SRC)) + A.enc([[]])
+    return A.mk_blk(12, 2, btsd, ct=2)
+
 RPTS = ['null', 'none', 'eid']
 RPT_EID = A.dtn('//rpt/')
 SRC = A.dtn('//src/')
@@ -25,10 +34,17 @@ def mk_case(flags, rpt, outcome, seq=0, ct=0, ts=None, extra=None, dwell=0, plen
         plen = 400 if outcome == 'fwdfrag' else 5
     p = A.mk_pri(A.dtn(OUTCOMES[outcome]), SRC, ts or [A.T0 - 40, seq], flags=flags, ct=ct,
                  rpt=RPT_EID if rpt == 'eid' else 'none')
-    blocks = list(extra or []) + [A.mk_blk(1, 1, bytes((i * 7 + 3) & 0xff for i in range(plen)), ct=bct)]
+    extra = list(extra or [])
+    params = {}
+    if outcome == 'secfail':
+        # security failure: delivery route, but the BCB step fails with "unknown security operation" (13);
+        # the outcome of the BPSec step is a parameter of the model
+        extra = [k for k in extra if k['n'] != 2] + [bcb_unknown_context()]
+        params = {'bcb': 13}
+    blocks = extra + [A.mk_blk(1, 1, bytes((i * 7 + 3) & 0xff for i in range(plen)), ct=bct)]
     b = {'pri': p, 'rpt_none': rpt == 'null', 'blocks': blocks}
     return {'flags': flags, 'rpt': rpt, 'outcome': outcome,
-            'items': [{'b': b, 'now': A.T0 + 10, 'crc_ok': True, 'dwell': dwell}]}
+            'items': [{'b': b, 'now': A.T0 + 10, 'crc_ok': True, 'dwell': dwell, 'params': params}]}
 
 
 def decode_report(d):
@@ -84,9 +100,12 @@ def monitors(chk, case, obs):
     if left:
         occurred.add('forward')
     route_act = dict((('//node/app', 'deliver'), ('//far/x', 'forward'), ('//frag/x', 'forward'),
-                      ('//lost/x', 'forward'), ('//tiny/x', 'forward'), ('//del/x', 'delete'))).get(OUTCOMES[case['outcome']])
+                      ('//lost/x', 'forward'), ('//tiny/x', 'forward'), ('//del/x', 'delete'),
+                      ('//node/sec', 'deliver'))).get(OUTCOMES[case['outcome']])
     if route_act == 'delete' or (route_act == 'forward' and not left):
         occurred.add('delete')
+    if case['outcome'] == 'secfail' and not delivered:
+        occurred.add('delete')      # deleted for the security failure, never delivered
     enabled = (not it['b'].get('rpt_none')) and p['rpt'] != 'none'
     expected = set(a for a in occurred if flags & A.REQ[a])
     chk.count('outcome:%s' % case['outcome'])
@@ -150,6 +169,8 @@ def monitors(chk, case, obs):
                 problems.append('time on an unasserted entry')
         if rec['extra']:
             problems.append('unexpected fragment fields %s' % rec['extra'])
+        if case['outcome'] == 'secfail' and rec['reason'] not in SEC_REASONS:
+            problems.append('reason %s is not a security reason' % rec['reason'])
     if r.pri['dest'] != p['rpt']:
         problems.append('addressed to %s, report-to is %s' % (r.pri['dest'], p['rpt']))
     if not r.pri['flags'] & A.F_ADMIN:
@@ -165,6 +186,8 @@ def monitors(chk, case, obs):
         sig = 'C19:report-content-wrong'
         if rec and 'forward' in set(a for a, (st, _t) in rec['infos'].items() if st) and not left and only_fwd:
             sig = 'C19:not-forwarded-reported-forwarded'
+        elif rec and rec['infos']['deliver'][0] and not delivered and 'delete' in occurred:
+            sig = 'C19:deleted-bundle-reported-delivered'
         elif rec and p['ts'][0] == 0 and any(q.startswith('subject') for q in problems):
             sig = 'C19:create-time-zero-subject-rewritten'
         chk.violation(sig, '%s: %s' % (tag, '; '.join(problems)), rj)
@@ -211,7 +234,9 @@ def run(chk):
                        'reception and forwarding; each case through the real Agent and the Lean model (all CL '
                        'octets compared), monitors on the decoded administrative records')
     chk.assumptions += [
-        'the security-failure outcome needs a BPSec configuration and is exercised by C12, not here',
+        'security failure is exercised with a BCB naming a security context no node implements (no BPSec '
+        'configuration needed); the outcome of the BPSec step is a parameter of the model; cryptographic failures '
+        'are C12\'s subject',
         'fragment creation is a parameter of the model (none / consumed / raises / unsendable); the harness '
         'decides it independently of the implementation from the size of the model\'s own unfragmented output versus '
         'the route MTU (agentlib.model_answers); fragment octets themselves are C05\'s subject and are not compared',
